@@ -1491,6 +1491,22 @@ def cast_exactly_on_type_mismatch(emit_fn: ast.AST) -> Tuple[bool, str]:
                     atoms_true.add(src(a))
             else:
                 atoms_false.append([src(a) for a in conj])
+                # a single comparison known to be false is its complement known to be true (an if/elif ladder that rules the cases out one by one)
+                if len(conj) == 1 and isinstance(conj[0], ast.Compare) and len(conj[0].ops) == 1:
+                    comp = {ast.Eq: "!=", ast.NotEq: "==", ast.Is: "is not", ast.IsNot: "is"}.get(type(conj[0].ops[0]))
+                    if comp:
+                        atoms_true.add(f"{src(conj[0].left)} {comp} {src(conj[0].comparators[0])}")
+                if len(conj) == 1 and isinstance(conj[0], ast.UnaryOp) and isinstance(conj[0].op, ast.Not):
+                    atoms_true.add(src(conj[0].operand))
+                # `A or B` known false: both false
+                if len(conj) == 1 and isinstance(conj[0], ast.BoolOp) and isinstance(conj[0].op, ast.Or):
+                    for a in conj[0].values:
+                        if isinstance(a, ast.UnaryOp) and isinstance(a.op, ast.Not):
+                            atoms_true.add(src(a.operand))
+                        elif isinstance(a, ast.Compare) and len(a.ops) == 1:
+                            comp = {ast.Eq: "!=", ast.NotEq: "==", ast.Is: "is not", ast.IsNot: "is"}.get(type(a.ops[0]))
+                            if comp:
+                                atoms_true.add(f"{src(a.left)} {comp} {src(a.comparators[0])}")
         mism = [a for a in atoms_true if re.fullmatch(r"(.+)\.type != (.+)\.cpp_type\(\)\.type", a)]
         full = False
         for a in mism:
@@ -1508,6 +1524,12 @@ def cast_exactly_on_type_mismatch(emit_fn: ast.AST) -> Tuple[bool, str]:
                 if m and f"{m.group(2)}.has_cpp_type()" in atoms_true and any(f == [f"{m.group(1)} is None"] for f in atoms_false):
                     full = True
         has_cast = "static_cast<" in text
+        # a flag that carries the cast type (cast_to = <tt>.type ... if cast_to is not None) is None only on the arms that set it to None: the
+        # path "type name assigned, then found to be None" does not exist (a type's name is a string)
+        if full and not has_cast and any(re.fullmatch(r".+\.type is not None", " ".join(f)) for f in atoms_false if len(f) == 1):
+            continue
+        if full and not has_cast and any(re.fullmatch(r".+\.type is None", a) for a in atoms_true):
+            continue
         if has_cast != full:
             return False, ("a cast is emitted on a path where the three conditions are not all established" if has_cast
                            else "no cast on the path where both types are known and differ") + f": {text[:80]}"
